@@ -278,6 +278,13 @@ package region
 // the deadline is armed / cleared inside the critical section that updated the counter: outside it, a clear could wipe
 // the deadline another sender has just armed (a silent server would then never be detected)
 //@   at call SetReadDeadline#1 assert[C18] ghost("nheld") > 0
+// every send that leaves requests outstanding restarts the read timeout, with the configured value (C18: a silent server
+// is detected within the read timeout of the *last* request sent - arming only on the 0 -> 1 transition would fail
+// requests that were sent shortly before an older deadline expires). Ghost rearmed[c] counts the arming calls of this operation.
+//@   hides X.rearmed "per-operation ghost: counts the SetReadDeadline calls of one inFlightUp"
+//@   at call SetReadDeadline#1 ghost rearmed[c] == ghostat("rearmed", c) + 1
+//@   at call Add#1 assert[C18] arg0 == c.readTimeout
+//@   ensures[C18] r0 == nil && ghostat("net", c) > 0 ==> ghostat("rearmed", c) == old(ghostat("rearmed", c)) + 1
 //@   panics never[C18]
 //@   ensures[C18] ghostat("net", c) == old(ghostat("net", c)) + 1
 //@   ensures[C18] r0 == nil ==> inflightInv(c)
@@ -508,9 +515,19 @@ package region
 //@   ensures ghost("dials") == old(ghost("dials")) + 1
 //@   ensures err == nil ==> conn != nil
 
+//@ func compression.Codec.CellBlockCompressorClass() (r)
+//@   pure
+// the first thing written on a connection (C05): the six preamble bytes "HBas", version 0, auth 0x50 (simple), then the
+// 4-byte big-endian length of the marshalled connection header, then exactly that header - all in one write; the header
+// names the service of this client type, the effective user, the KeyValue codec and (only with compression) the compressor
 //@ func region.(*client).sendHello
-//@   trusted "connection preamble and header (C05 covers request frames; the preamble is not yet under contract): it only writes to the connection"
+//@   requires c.conn != nil
 //@   modifies X.written
+//@   panics never[C05]
+//@   at call Marshal#1 assert[C05] connHeader.ServiceName != nil && *connHeader.ServiceName == c.ctype && connHeader.UserInfo != nil && connHeader.UserInfo.EffectiveUser != nil && *connHeader.UserInfo.EffectiveUser == c.effectiveUser
+//@   at call Marshal#1 assert[C05] connHeader.CellBlockCodecClass != nil && (c.compressor != nil) == (connHeader.CellBlockCompressorClass != nil)
+//@   at call write#1 assert[C05] len(buf) == 10 + len(data) && buf[0] == 'H' && buf[1] == 'B' && buf[2] == 'a' && buf[3] == 's' && buf[4] == 0 && buf[5] == 80
+//@   at call write#1 assert[C05] be32(buf[6:]) == len(data) % 4294967296 && forall(k, 0 <= k && k < len(data), buf[10 + k] == data[k])
 
 //@ func region.(*client).Dial
 //@   requires c.sent != nil && sentWF(c) && failWF(c)
@@ -568,6 +585,21 @@ package region
 //@   loop 1 invariant[C05] forall(k, 0 <= k && k < i, ghostat("ser", k) == old(ghostat("ser", k)) + ite(m.calls[k] != nil, 1, 0))
 //@   loop 1 invariant[C05] forall(k, i <= k && k < len(m.calls), ghostat("ser", k) == old(ghostat("ser", k)))
 //@   loop 1 invariant[C05] forall(r, haskey(actionsPerReg, r) ==> len(actionsPerReg[r].pbs) >= 1)
+// calls for the same region are presented to the server in batch order (C12): within every region's action list the
+// action indices increase strictly, and the region action of the request is that list
+// (ghost slotof[a] = the slot the action a was built for; every region has an action list of its own)
+//@   at call append#1 ghost slotof[a] == i
+//@   loop 1 invariant[C12] forall(r, haskey(actionsPerReg, r) ==> allocated(actionsPerReg[r]) && allocated(actionsPerReg[r].pbs)) && forall(r1, r2, haskey(actionsPerReg, r1) && haskey(actionsPerReg, r2) && r1 != r2, actionsPerReg[r1] != actionsPerReg[r2])
+//@   loop 1 invariant[C12] forall(r, p, haskey(actionsPerReg, r) && 0 <= p && p < len(actionsPerReg[r].pbs), 0 <= ghostat("slotof", actionsPerReg[r].pbs[p]) && ghostat("slotof", actionsPerReg[r].pbs[p]) < i && actionsPerReg[r].pbs[p] == elemaddr(pbActions, ghostat("slotof", actionsPerReg[r].pbs[p])) && m.calls[ghostat("slotof", actionsPerReg[r].pbs[p])] != nil)
+//@   loop 1 invariant[C12] forall(r, p, q, haskey(actionsPerReg, r) && 0 <= p && p < q && q < len(actionsPerReg[r].pbs), ghostat("slotof", actionsPerReg[r].pbs[p]) < ghostat("slotof", actionsPerReg[r].pbs[q]))
+//@   loop 3 invariant[C12] forall(r, p, haskey(actionsPerReg, r) && 0 <= p && p < len(actionsPerReg[r].pbs), 0 <= ghostat("slotof", actionsPerReg[r].pbs[p]) && ghostat("slotof", actionsPerReg[r].pbs[p]) < len(m.calls) && actionsPerReg[r].pbs[p] == elemaddr(pbActions, ghostat("slotof", actionsPerReg[r].pbs[p])) && m.calls[ghostat("slotof", actionsPerReg[r].pbs[p])] != nil)
+//@   loop 3 invariant[C12] forall(r, p, q, haskey(actionsPerReg, r) && 0 <= p && p < q && q < len(actionsPerReg[r].pbs), ghostat("slotof", actionsPerReg[r].pbs[p]) < ghostat("slotof", actionsPerReg[r].pbs[q]))
+//@   loop 3 invariant[C12] 0 <= i && forall(j, i <= j && j < len(ra), ra[j] == nil)
+//@   loop 3 invariant[C12] forall(j, 0 <= j && j < i, haskey(actionsPerReg, m.regions[j]) && sameslice(ra[j].Action, actionsPerReg[m.regions[j]].pbs))
+//@   at return 1 assert[C12] forall(j, p, 0 <= j && j < len(ra) && ra[j] != nil && 0 <= p && p < len(ra[j].Action), ra[j].Action[p] == elemaddr(pbActions, ghostat("slotof", ra[j].Action[p])) && 0 <= ghostat("slotof", ra[j].Action[p]) && ghostat("slotof", ra[j].Action[p]) < len(m.calls) && m.calls[ghostat("slotof", ra[j].Action[p])] != nil)
+//@   at return 1 assert[C12] forall(j, p, 0 <= j && j < len(ra) && ra[j] != nil && 0 <= p && p < len(ra[j].Action), *ra[j].Action[p].Index == ghostat("slotof", ra[j].Action[p]) + 1)
+//@   at return 1 assert[C12] forall(j, p, q, 0 <= j && j < len(ra) && ra[j] != nil && 0 <= p && p < q && q < len(ra[j].Action), ghostat("slotof", ra[j].Action[p]) < ghostat("slotof", ra[j].Action[q]))
+//@   ensures[C12] forall(j, p, q, 0 <= j && j < len(cast(r0, "*pb.MultiRequest").RegionAction) && cast(r0, "*pb.MultiRequest").RegionAction[j] != nil && 0 <= p && p < q && q < len(cast(r0, "*pb.MultiRequest").RegionAction[j].Action), *cast(r0, "*pb.MultiRequest").RegionAction[j].Action[p].Index < *cast(r0, "*pb.MultiRequest").RegionAction[j].Action[q].Index)
 // the action built for slot k carries the 1-based index k+1 (C02): ghost actof[k] = the action appended for slot k
 //@   at call append#1 ghost actof[i] == a
 //@   loop 1 invariant len(indices) == len(m.calls) && len(pbActions) == len(m.calls) && forall(k, i <= k && k < len(m.calls), !escaped(indices, k) && !escaped(pbActions, k))
